@@ -156,6 +156,11 @@ def shape_of(t, env=None):
         if tuple(tgt) == (-1, 1):
             return (sp.Mul(*s) if s else sp.Integer(1), sp.Integer(1))
         raise Unknown("view")
+    if op in ("expand_as", "view_as", "reshape_as"):
+        tgt = so(a[1])
+        if op == "expand_as":
+            broadcast(so(a[0]), tgt)  # raises ShapeError when the source cannot be expanded to the target
+        return tgt
     if op == "expand":
         s = so(a[0])
         tgt = a[1:]
